@@ -238,10 +238,29 @@ func (s *Scanner) scanComment() string {
 exit:
 	lit := s.src[offs:s.offset]
 	if hasCR {
-		lit = stripCR(lit)
+		if lit[1] == '*' {
+			lit = stripCommentCR(lit)
+		} else {
+			lit = stripCR(lit)
+		}
 	}
 
 	return string(lit)
+}
+
+// stripCommentCR strips carriage returns from a /*-style comment, except from
+// "*\r/" sequences: removing those would terminate the comment too early
+// (see go/scanner, issue #11151).
+func stripCommentCR(b []byte) []byte {
+	c := make([]byte, len(b))
+	i := 0
+	for j, ch := range b {
+		if ch != '\r' || i > len("/*") && c[i-1] == '*' && j+1 < len(b) && b[j+1] == '/' {
+			c[i] = ch
+			i++
+		}
+	}
+	return c[:i]
 }
 
 func (s *Scanner) findLineEnd() bool {
